@@ -24,6 +24,59 @@ def model_check(run, thorough):
     run.notes['model_mutant_caught'] = True
 
 
+def binding_selftest(run, events):
+    """Demonstration that the trace specification really constrains the recording: corrupt one logged field / drop one event of a valid
+    trace and the corresponding clause must reject (otherwise the check is vacuous: machinery failure)."""
+    import copy
+    base = [e for e in events if e['sid'] <= 12]
+    wanted = []
+    # (1) a fixed vertex's pose digest changes across an optimizer call
+    t1 = copy.deepcopy(base)
+    for e in t1:
+        if e['op'] == 'OptCall' and any(v['fixed'] for v in e['verts']):
+            j = [k for k, v in enumerate(e['verts']) if v['fixed']][0]
+            e['verts'][j]['pose'] = 'corrupted0000'
+            wanted.append((t1, (e['sid'], e['seq']), 'opt-effect'))
+            break
+    # (2) a query changes a measurement
+    t2 = copy.deepcopy(base)
+    for e in t2:
+        if e['op'] == 'Query' and e['edges']:
+            e['edges'][0]['num'] = 'corrupted0000'
+            wanted.append((t2, (e['sid'], e['seq']), 'query-pure'))
+            break
+    # (3) a repeated query returns a different value
+    t3 = copy.deepcopy(base)
+    seen = {}
+    for e in t3:
+        if e['op'] in ('OptCall', 'Construct'):
+            seen = {k: v for k, v in seen.items() if k[0] != e['sid']}
+        if e['op'] == 'Query':
+            k = (e['sid'], e['q'], e['target'])
+            if k in seen:
+                e['result'] = 'corrupted0000'
+                wanted.append((t3, (e['sid'], e['seq']), 'query-deterministic'))
+                break
+            seen[k] = True
+    # (4) an event is dropped (the hook did not fire): the next event no longer follows from the state before it
+    t4 = copy.deepcopy(base)
+    for n, e in enumerate(t4):
+        if e['op'] == 'SetFixed' and n + 1 < len(t4) and t4[n + 1]['sid'] == e['sid'] and t4[n + 1]['op'] == 'Query' and (n == 0 or t4[n - 1]['verts'] != e['verts']):
+            nxt = t4[n + 1]
+            del t4[n]
+            wanted.append((t4, (nxt['sid'], nxt['seq']), 'query-pure'))
+            break
+    caught = 0
+    for trace, where, clause in wanted:
+        rej = scenario.validate(run, trace, name='Trace_selftest')
+        if (where[0], where[1], clause) not in rej:
+            raise RuntimeError('binding self-test: corrupted trace was not rejected at %r with clause %s (rejections: %r)' % (where, clause, rej[:5]))
+        caught += 1
+    if caught < 2:
+        raise RuntimeError('binding self-test: only %d corruptions could be constructed' % caught)
+    run.notes['binding_selftest_corruptions_rejected'] = caught
+
+
 def check(run):
     thorough = run.tier == 'thorough'
     model_check(run, thorough)
@@ -34,6 +87,8 @@ def check(run):
     sessions = scenario.play(behaviours, run.seed, events, twin_every=3)
     rejects = scenario.validate(run, events)
     run.replayed = len(sessions)
+    if not rejects:
+        binding_selftest(run, events)
     ops = {}
     byid = {(e['sid'], e['seq']): e for e in events}
     for e in events:
